@@ -129,6 +129,14 @@ CHECKS = {
   "every index/slice expression is in bounds (Parse cannot panic there) and the results equal the marker vocabulary written from the format text.",
   "assumed: extern contracts for bytes.HasPrefix/HasSuffix/IndexByte/Index and strings.TrimSpace; mathematical integers; govc's SSA->VC translation; z3/cvc5",
   "contract-based deductive verification: weakest-precondition style VCs over go/ssa, discharged by z3 4.8/5.1 and cvc5"),
+ "C20": ("5 C20",
+  "Contracts on the request handler, the zip-building closure and allHex over a ghost response (status set, number of body writes) and ghost zip-entry counters: "
+  "a .info / .mod request answers with exactly one write, of the data of the first stored file named .info / .mod, and nothing else; the zip closure creates an entry only for stored files whose name does not start with a dot, "
+  "under the name path@version/<file name> (byte-exact) and writes exactly that file's data into it; the list endpoint prints only versions of the requested module path that are not pseudo-versions and pass module.Check, and prints that entry's version; "
+  "every request is answered (a body write or a status), a 404 never carries a body, missing archives / unknown extensions / undecodable paths give 404; the handler writes no field of the Server (frame: modList and the caches are read only); all slice/index expressions are in bounds for arbitrary URLs.",
+  "assumed (trusted, not verified): readArchive/findHash/isPseudoVersion are side-effect free and unspecified (archive loading from .txt/.txtar/directories is NOT decided); par.Cache.Do runs the closure and returns its value (C10's contract is not re-used here: a local thin contract, type assertion .(cached) assumed); "
+  "archive/zip, net/http, fmt.Fprintf, x/mod module and semver as extern contracts; byte-identity of the HTTP body on the wire and validity of the zip container are the libraries'; 'same under concurrent requests' follows only from the frame (handler writes no server state) plus C10 on paper; the commit-hash to version resolution is proved safe but not functionally specified",
+  "contract-based deductive verification: call-site obligations and loop invariants over a ghost HTTP response, byte-level string concatenation for the zip entry names; z3/cvc5"),
 }
 
 NOT_YET = "not yet brought under contract in this round of work (see DESIGN.md section 8 build order); no check is registered, so nothing is claimed"
